@@ -302,6 +302,18 @@ def WfOutP : XTok → Prop
   | .cdata _ t => WfCDataText t
   | _ => True
 
+/-- element nesting (well-formedness constraint "element type match"): every end tag closes the innermost
+open element and carries its name; `/>` closes the element just opened; at the end nothing is open.
+Argument: names of the open elements, innermost first. -/
+def nest : List (List Char) → List XTok → Bool
+  | st, [] => st.isEmpty
+  | st, .startTag n :: r => nest (n :: st) r
+  | _ :: st, .startTagCloseVoid :: r => nest st r
+  | [], .startTagCloseVoid :: _ => false
+  | n :: st, .endTag _ m :: r => n == m && nest st r
+  | [], .endTag _ _ :: _ => false
+  | st, _ :: r => nest st r
+
 /-! ## triggers of the known findings (narrow syntactic predicates on the input tokens) -/
 
 def hasCdEndD : List Ev → Bool
@@ -399,7 +411,7 @@ def holds (keep : Bool) (i o : List XTok) : List String :=
   let isAttr : Mark → Bool := fun m => match m with | .attr _ _ => true | _ => false
   let isPi : Mark → Bool := fun m => match m with | .pi _ => true | .piEnd => true | _ => false
   let isDt : Mark → Bool := fun m => match m with | .doctype _ => true | _ => false
-  (if o.all wfOutTok && !hasCdEndD (infoset o) then [] else ["wf"]) ++
+  (if o.all wfOutTok && !hasCdEndD (infoset o) && (!nest [] i || nest [] o) then [] else ["wf"]) ++
   (if projTags ci == projTags co then [] else ["struct"]) ++
   (if projNeutral isAttr ci == projNeutral isAttr co then [] else ["attr"]) ++
   (if projNeutral isPi ci == projNeutral isPi co then [] else ["pi"]) ++
